@@ -10,6 +10,13 @@ open Percival Percival.Driver Percival.Spec.HmacDrbg Percival.Model.EntropyStep
 def parse : List String → Option Op
   | ["ent", a] => if a = "FAIL" then some (.ent none) else (bytesOfHex a).map fun b => .ent (some b)
   | ["read", ns] => ns.toNat?.map .read
+  | ["entgen", count, len, seed] => do
+      pure (.ents (genAnswers (← count.toNat?) (← len.toNat?) (← seed.toNat?)))
+  -- ONE call for n bytes; the harness compares it with the same request made in calls of 65536 bytes and says `same`
+  -- (theorem C11.read_eq_chunks); <tail> concerns the harness's buffer only
+  | ["bigread", ns, _tail, mode] => do
+      let n ← ns.toNat?
+      if mode = "full" then pure (.bigread n true) else if mode = "cmp" then pure (.bigread n false) else none
   -- component `drbgos`: the answer of the OS entropy source is what the model of util/entropy.c makes of one
   -- scripted open/read…/close session on /dev/urandom asked for `n` bytes (failure = `ent FAIL`)
   | ["entos", n, stream, script] => do
@@ -36,8 +43,19 @@ def showOutcome : Outcome → String
   | .fail => "fail"
   | .abort => "abort"
 
+/-- the first 64 bytes (or fewer) of what the first call of the chunked sequence answers -/
+def showFirst : Outcome → String
+  | .ok out => "first=" ++ hexOfBytes (out.take 64)
+  | .fail => "first=fail"
+  | .abort => "first=abort"
+
 def render : Out → String
   | .ent q => s!"ent | {q}"
+  | .dead => "after-big"
+  | .bigcmp n r1 r2 => s!"same {n} {showFirst r1} | {showFirst r2}"
+  | .bigfull n r1 r2 m q =>
+      let d := m.drbg
+      s!"same {n} {showOutcome r1} | {showOutcome r2} K={hexOfBytes d.key} V={hexOfBytes d.v} ctr={d.reseedCounter.toNat} inst={if m.instantiated then 1 else 0} q={q}"
   | .read r1 r2 m q =>
       let d := m.drbg
       s!"{showOutcome r1} | {showOutcome r2} K={hexOfBytes d.key} V={hexOfBytes d.v} ctr={d.reseedCounter.toNat} inst={if m.instantiated then 1 else 0} q={q}"
